@@ -45,15 +45,14 @@ def _rc(ops, **kw):
 
 def plan(tier):
     """[(module, label, constants, invariants, properties, simulate, depth)]"""
-    third = len(OPS1) // 3
+    third, half = len(OPS1) // 3, len(OPS1) // 2
     if tier == "quick":
         return [("Connectable", "2 applications, 2 steps", _cc(), CINVS, [], None, None),
                 ("Connectable", "2 applications, simulate", _cc(NSubs=3, MaxSteps=5, MinLen=3, MaxGap=2, Bs={1, 99}, Ws={2, 99},
                                                                Ns={0, 1, 2}, Mps={"none", "id", "dup", "take1"}, SrcIds={1, 3, 7},
                                                                Hots={True, False}, ReUnsub=True, Modes={"all", "once"}), CINVS, [], "num=400", 7),
-                ("Reuse", "2 applications, operators A", _rc(OPS1[:third]), RINVS, ["Monotone"], None, None),
-                ("Reuse", "2 applications, operators B", _rc(OPS1[third:2 * third]), RINVS, ["Monotone"], None, None),
-                ("Reuse", "2 applications, operators C", _rc(OPS1[2 * third:]), RINVS, ["Monotone"], None, None)]
+                ("Reuse", "2 applications, operators A", _rc(OPS1[:half]), RINVS, ["Monotone"], None, None),
+                ("Reuse", "2 applications, operators B", _rc(OPS1[half:]), RINVS, ["Monotone"], None, None)]
     n = 5000
     deep = dict(NSubs=3, MaxSteps=7, MinLen=4, MaxGap=2, Bs={0, 1, 2, 99}, Ws={1, 2, 99}, Ns={0, 1, 2, 3},
                 Mps={"none", "id", "dup", "take1"}, SrcIds={1, 3, 5, 7, 8}, Hots={True, False}, ReUnsub=True, StaleDisc=True, Modes={"all", "once"})
@@ -273,7 +272,7 @@ def run(tier: str) -> int:
                        xmx="2g", env_extra=JVM, allow_violation=False)
     clines, rlines = [], []
     t0 = time.time()
-    with ThreadPoolExecutor(5 if tier == "quick" else 4) as ex:
+    with ThreadPoolExecutor(4) as ex:
         for j, res in zip(jobs, ex.map(one, jobs)):
             ck.add_tlc(res, f"{j[0]}: {j[1]}" + (" [simulation]" if j[5] else " [exhaustive]"))
             (clines if j[0] == "Connectable" else rlines).extend(res.lines)
